@@ -41,7 +41,8 @@ def detect(seed_dir, props=None, tier='quick'):
         print(json.dumps(res)); return res
     results = {}
     for pid in (props or [prop]):
-        env = dict(os.environ, VERIF_REPO=SCRATCH, VERIF_SEED=os.environ.get('VERIF_SEED', '1'))
+        os.makedirs('/tmp/seed/evidence', exist_ok=True)
+        env = dict(os.environ, VERIF_REPO=SCRATCH, VERIF_SEED=os.environ.get('VERIF_SEED', '1'), VERIF_EVIDENCE_DIR='/tmp/seed/evidence')
         t0 = time.time()
         rc, out = sh(f'python3 check.py {pid} --tier {tier}', cwd=VERIF, env=env, timeout=3000)
         viol = [l for l in out.split('\n') if l.startswith('VIOLATION')]
